@@ -264,6 +264,23 @@ fn run_setters(i: usize, sc: &Scenario, maps: &Maps, out: &mut Vec<Value>, check
     if d2 != d {
         bad("order_dependence", "-", real_inspect(&d), real_inspect(&d2));
     }
+    // ... and the reversed order when every call sets another field (TLC's view keeps one order per resulting record)
+    let mut fields: Vec<&str> = sc.calls.iter().map(|c| c.f.as_str()).collect();
+    fields.sort_unstable();
+    fields.dedup();
+    if fields.len() == sc.calls.len() && sc.calls.len() > 1 {
+        let d3 = sc.calls.iter().rev().fold(Difficulty::new(), apply_diff);
+        if d3 != d {
+            bad("order_dependence_reversed", "-", real_inspect(&d), real_inspect(&d3));
+        }
+        for (mode, (map, _)) in maps.by_mode.iter() {
+            let fwd = sc.calls.iter().fold(Performance::new(map), apply_perf);
+            let rev = sc.calls.iter().rev().fold(Performance::new(map), apply_perf);
+            if fwd != rev {
+                bad("perf_order_dependence_reversed", mode, "equal builders".into(), "builders differ".into());
+            }
+        }
+    }
     // Performance level, per mode
     for (mode, (map, _)) in maps.by_mode.iter() {
         *checks += 1;
@@ -394,6 +411,33 @@ fn run_entry(i: usize, sc: &Scenario, maps: &Maps, out: &mut Vec<Value>, checks:
             match (real, reference) {
                 (Ok(a), Ok(b)) if dbg_perf(&a) == dbg_perf(&b) => {}
                 (a, b) => out.push(json!({"scenario_index": i, "aspect": "entry", "what": "converted_entry_point_result", "mode": mode, "entry": sc.entry, "calls": sc.calls,
+                    "expected": format!("{b:?}").chars().take(500).collect::<String>(), "observed": format!("{a:?}").chars().take(500).collect::<String>()})),
+            }
+            // hit results given BEFORE the builder changes its mode must mean what they mean when given afterwards
+            // (every generic setter has one meaning per mode: n100 = droplets, n50 = tiny droplets, ... )
+            *checks += 1;
+            fn hits<'m>(p: Performance<'m>) -> Performance<'m> {
+                p.n300(5).n100(3).n50(2).misses(1).combo(4)
+            }
+            let before = guarded(|| {
+                let p = if sc.entry == "map_ref" { Performance::new(osu_map) } else { Performance::new(osu_map.clone()) };
+                let mut p = hits(p.mods(mk_mods(0))).try_mode(gmode).ok().expect("osu map converts");
+                for c in &sc.calls {
+                    p = apply_perf(p, c);
+                }
+                p.mods(mk_mods(bits)).calculate()
+            });
+            let after = guarded(|| {
+                let p = if sc.entry == "map_ref" { Performance::new(osu_map) } else { Performance::new(osu_map.clone()) };
+                let mut p = p.mods(mk_mods(0)).try_mode(gmode).ok().expect("osu map converts");
+                for c in &sc.calls {
+                    p = apply_perf(p, c);
+                }
+                hits(p.mods(mk_mods(bits))).calculate()
+            });
+            match (before, after) {
+                (Ok(a), Ok(b)) if dbg_perf(&a) == dbg_perf(&b) => {}
+                (a, b) => out.push(json!({"scenario_index": i, "aspect": "entry", "what": "hit_results_before_vs_after_mode_change", "mode": mode, "entry": sc.entry, "calls": sc.calls,
                     "expected": format!("{b:?}").chars().take(500).collect::<String>(), "observed": format!("{a:?}").chars().take(500).collect::<String>()})),
             }
         }
